@@ -106,7 +106,6 @@ def witness (a b : SExpr) : String :=
   | none => "no probe state separates them (trees differ syntactically)"
 
 def checkRule (ir : ProgIR) (gmap : Nat → Nat) (r : RuleIR) (action constraint : ByteArray) : List String × Nat × Nat := Id.run do
-  let _ := ir
   let mut out : List String := []
   let mut nSets := 0
   let mut nCons := 0
@@ -130,6 +129,16 @@ def checkRule (ir : ProgIR) (gmap : Nat → Nat) (r : RuleIR) (action constraint
           -- for  shift.x = v; advance.x = advancewidth + v
           let fr := frameOf r j
           let mut want : List (String × Nat × Nat × Option SExpr) := []
+          -- attach {to = @n; at = P; with = Q}:  attach.to = offset of item n;  attach.at = P of the target's glyph;
+          -- attach.with = Q of the own glyph
+          match it.attach with
+          | some at_ =>
+            let off : Int := inIdx r (at_.to - 1) - fr
+            let pa (nm : String) : Option (Nat × Nat) := (ir.pointAttrs.find? (·.1 == nm)).map fun (_, x, y) => (gmap x, gmap y)
+            want := want ++ [("=slot", kslatAttTo, 0, some (.const off)),
+              ("=", kslatAttAtX, 0, (pa at_.atP).map fun q => .attGlyphAttr q.1 0), ("=", kslatAttAtY, 0, (pa at_.atP).map fun q => .attGlyphAttr q.2 0),
+              ("=", kslatAttWithX, 0, (pa at_.withP).map fun q => .glyphAttr q.1 0), ("=", kslatAttWithY, 0, (pa at_.withP).map fun q => .glyphAttr q.2 0)]
+          | none => pure ()
           for w in it.attrs do
             if w.attr == "user" then want := want ++ [(w.op, kslatUserDefn, w.idx, toS r gmap fr w.val)]
             else if w.attr == "kern.x" then
@@ -138,7 +147,8 @@ def checkRule (ir : ProgIR) (gmap : Nat → Nat) (r : RuleIR) (action constraint
             else match slatOf w.attr with
               | some a => want := want ++ [(w.op, a, 0, toS r gmap fr w.val)]
               | none => pure ()
-          let known : List Nat := [kslatUserDefn, kslatAdvX, kslatAdvY, kslatShiftX, kslatShiftY]
+          let known : List Nat := [kslatUserDefn, kslatAdvX, kslatAdvY, kslatShiftX, kslatShiftY, kslatAttTo, kslatAttAtX, kslatAttAtY,
+                                   kslatAttWithX, kslatAttWithY]
           let got := sets.filter fun g => known.contains g.attr
           if got.length != want.length then
             out := out ++ [s!"item {j + 1}: the rule makes {want.length} attribute assignments (user / advance / shift), the action makes {got.length}"]
